@@ -129,7 +129,7 @@ Section Run.
     - now rewrite all_match_ok.
     - destruct (SelectMatch_ok p t HI) as [t' [E1 E2]]. rewrite E1. cbn [bind]. now rewrite E2.
     - destruct (PartitionMatch_ok p t HI) as [ta [tb [E1 [E2 E3]]]]. rewrite E1. cbn [bind]. now rewrite E2, E3.
-    - cbn [abstract_query] in HA. now rewrite trav_stop_ok.
+    - cbn [abstract_query] in HA. rewrite trav_stop_ok, trav_stop_calls_ok, s_traverse_ok by auto. reflexivity.
   Qed.
 
   Lemma run_from_ok ops : forall t,
